@@ -96,8 +96,21 @@ theorem register_first_wins_initial (regs : List Reg) (fs : Fs) (ty : VType) (n 
     lookupReg (registerAll { fs := fs } regs).custom ty n = firstReg regs ty n := by
   rw [register_first_wins]; rfl
 
-/-- the evaluator finds exactly the registered function (`lookupCustom` = registry lookup) -/
-theorem evaluator_uses_registry (c : Ctx) (ty : VType) (n : Bytes) : lookupCustom c ty n = lookupReg c.custom ty n := rfl
+/-- the evaluator finds exactly the registered function (`lookupCustom` = registry lookup), unless
+    what was registered is a nil function value -/
+theorem evaluator_uses_registry (c : Ctx) (ty : VType) (n : Bytes) :
+    lookupCustom c ty n = (lookupReg c.custom ty n).bind fun fid => if fid == nilFn then none else some fid := rfl
+
+theorem evaluator_uses_registry_nonnil (c : Ctx) (ty : VType) (n : Bytes) (fid : Nat) (h : lookupReg c.custom ty n = some fid)
+    (hn : fid ≠ nilFn) : lookupCustom c ty n = some fid := by
+  rw [evaluator_uses_registry, h]
+  simp [hn]
+
+/-- a nil function value takes the name (a later registration is refused like any other) but is not callable -/
+theorem nil_function_is_not_callable (c : Ctx) (ty : VType) (n : Bytes) (h : lookupReg c.custom ty n = some nilFn) :
+    lookupCustom c ty n = none := by
+  rw [evaluator_uses_registry, h]
+  simp
 
 /-- a built-in name takes precedence over a custom function of the same name: the evaluator
     consults the custom registry only when `callBuiltin` has no function of that name -/
